@@ -97,7 +97,16 @@ def gen_one(rng, nops, sched):
         elif r < 0.73:
             ops.append('H')
         elif sched:
-            ops.append(rng.choice(['>,%d' % c, '>,%d' % c, '<,%d' % c, '*']))
+            k = rng.random()
+            if k < 0.12:
+                dt = rng.choice([1, 5, 1000, 2499999, 2500000])
+                if elapsed + dt < 9500000:
+                    elapsed += dt
+                    ops.append('J,%d' % dt)      # clock moves on inside a loop iteration
+            elif k < 0.35:
+                ops.append('},%d' % c)           # dispatched in the same iteration as the previous one
+            else:
+                ops.append(rng.choice(['>,%d' % c, '>,%d' % c, '<,%d' % c, '*']))
         if not sched:
             ops.append('*')
         elif rng.random() < 0.15:
@@ -147,6 +156,31 @@ def gen_repeat(rng):
         ops += a_send() + dr() + ['F,2,%d' % u, '*']
     return '%d %s' % (ncl, ' '.join(ops))
 
+def gen_same_iteration(rng):
+    """Two senders' frames for one universe handled in the SAME event-loop iteration while the clock
+    moves on between the two dispatches (streamed/acked in both orders, LTP and HTP, equal and
+    different priorities): both sources must carry the loop's wake-up time."""
+    u = rng.choice([1, 1, 2])
+    ops = ['G,2,%d,1' % u, '*', 'M,2,%d,%d' % (u, rng.choice([0, 0, 0, 1])), '*']
+    if rng.random() < 0.3:
+        ops += ['K,%d' % rng.choice([1, 1000, 100000])]
+    x = hx([rng.randrange(256) for _ in range(rng.choice([1, 2, 3]))])
+    y = hx([rng.randrange(256) for _ in range(rng.choice([1, 2, 3]))])
+    pa = rng.choice([100, 100, 100, 0, 200])
+    pb = rng.choice([pa, pa, pa, 100, 150])
+    kinds = rng.choice([('T', 'S'), ('S', 'T'), ('T', 'T'), ('S', 'S'), ('RT', 'RS')])
+    ops += ['%s,0,%d,%d,%s' % (kinds[0], u, pa, x), '%s,1,%d,%d,%s' % (kinds[1], u, pb, y)]
+    first, second = rng.choice([(0, 1), (1, 0)])
+    ops += ['>,%d' % first]
+    if rng.random() < 0.85:
+        ops += ['J,%d' % rng.choice([1, 1, 5, 1000, 2499999])]
+    ops += ['},%d' % second]
+    if rng.random() < 0.4:
+        # a third frame in yet another dispatch of the same iteration
+        ops += ['%s,0,%d,%d,%s' % (kinds[0], u, pa, x), 'J,%d' % rng.choice([1, 7]), '},0']
+    ops += ['*', 'F,2,%d' % u, '*']
+    return '3 %s' % ' '.join(ops)
+
 def gen_cases(rng, tier):
     n = 900 if tier == 'quick' else 30000
     for i in range(n):
@@ -155,6 +189,8 @@ def gen_cases(rng, tier):
         yield gen_one(rng, nops, sched)
     for i in range(n // 4):
         yield gen_repeat(rng)
+    for i in range(n // 6):
+        yield gen_same_iteration(rng)
 
 def nontrivial(payload, md):
     obs = md.get('obs', '')
@@ -163,7 +199,7 @@ def nontrivial(payload, md):
 RULE = ('histories of 6-36 client-library calls by 2-4 real OlaClient instances against one real OlaServer '
         '(acked/streamed/raw-protobuf sends with frame sizes {0,1,2,3,4,512,513,600} and priorities '
         '{0,1,99,100,101,199,200,201,255 | absent,256,300,456,511,2^31-1}, fetch, register/unregister, merge mode, '
-        'name, info, patch, disconnects anywhere, half of the histories drawing frames/priorities from a 2-3 entry palette so senders repeat identical frames, plus dedicated repeat-identical-frame histories (acked and streamed, LTP/HTP, with a higher-priority sender going quiet across the 2.5 s source timeout), clock ticks {0,1,1000,2499999,2500000,2500001 us}, housekeeping); '
+        'name, info, patch, disconnects anywhere, half of the histories drawing frames/priorities from a 2-3 entry palette so senders repeat identical frames, plus dedicated repeat-identical-frame histories (acked and streamed, LTP/HTP, with a higher-priority sender going quiet across the 2.5 s source timeout), histories in which frames of two senders are dispatched in the same event-loop iteration while the clock moves on (ops J/}: wake-up time vs fresh clock), clock ticks {0,1,1000,2499999,2500000,2500001 us}, housekeeping); '
         '1/3 drained after every call, 2/3 with an explicit random schedule of per-channel deliveries; compared after '
         'every step; non-trivial = at least one successful completion and one DMX push delivered to a registered '
         'client; distinct = distinct model output line')
@@ -185,15 +221,13 @@ TRUSTED = ['modelled rather than verified: OlaClientCore SendDMX/FetchDMX/Regist
            'TCP, OS scheduling, the HTTP server, plugins/ports/RDM are not modelled']
 LEVEL_TEXT = ('Coq theorems over an executable model of N client libraries + per-client FIFO channels + the olad '
               'service/universe store + the deferred ClientRemoved, with the schedule as a universally quantified input. '
-              'Proved for every schedule: no request id completes twice; ClientRemoved never runs inside a service '
+              'Proved for every schedule: no request id completes twice, and for a connected client with drained channels every issued id has completed exactly once (outstanding table = ids in flight); ClientRemoved never runs inside a service '
               'method (hazard unreachable, with fixes/02); sink sets stay duplicate-free with live sessions; the frames '
               'applied for a sender are in send order (subsequence of the consumed prefix of its sent log, the rest '
               'being exactly what is queued); a processed send is stored as (frame cut to 512, now, clamped priority), '
               'the universe holds the HTP merge of the live top-priority group / the newest frame (LTP), every open '
               'registered sink gets exactly one push with that universe/priority/frame and a fetch returns it; a '
-              'processed disconnect removes the client everywhere and leaves everybody else unchanged.  PARTIAL: the '
-              'exactly-once half (every request completes once the channels are drained with the connection up) is '
-              'not proved, only exercised by the correspondence check (key cnt).')
+              'processed disconnect removes the client everywhere and leaves everybody else unchanged.  No clause of the property is left to the correspondence check alone; the LTP clause is stated relative to the stored timestamps (that they never exceed the wake-up time is not a proved invariant).')
 LEVEL_NOTE = ('Trusted: Coq kernel, extraction (ExtrOcamlBasic), OCaml/C++ glue (the glue contains the drain loop), '
               'generator coverage of the correspondence; model = code is validated by differential testing of a real '
               'in-process OlaServer and real OlaClient objects under ASan/UBSan, not proved; protobuf, pipes, '
